@@ -16,7 +16,7 @@ RULE = (
     "constructor; distinct = distinct (node names, edge set); non-trivial = every case (accepted: closure+order contract "
     "evaluated; refused: reference confirms a cycle/self-loop/unknown/isolated node)"
 )
-REQUIRED = {"contract_evaluations": 1000, "accepted": 1000, "refused": 1000, "model_graphs": 10, "case_colliding_namings": 200}
+REQUIRED = {"contract_evaluations": 1000, "accepted": 1000, "refused": 1000, "model_graphs": 10, "incremental_equal": 30, "case_colliding_namings": 200}
 EXHAUSTIVE = {"quick": True, "thorough": True}
 ASSUMPTIONS = [
     "exhaustive scopes are finite (n<=5, loop-free at n=5 in quick); beyond them graphs are sampled",
@@ -387,4 +387,54 @@ def _run_models(ctx, VariablesDAG):
         ctx.count("model_graphs")
         ctx.count("accepted")
         ctx.distinct("model", label, len(dag))
+        _incremental(ctx, VariablesDAG, label, factory, dag)
+
+
+def _incremental(ctx, VariablesDAG, label, factory, dag_all):
+    """The graph is a function of the definitions present WHEN it is built: a collection filled step by step - with its automatic
+    variables read, the collection iterated and intermediate graphs built in between - gives the same graph as one filled at once."""
+    from leaspy.variables.specs import IndividualLatentVariable, NamedVariables
+
+    specs = factory().get_variables_specs()
+    explicit = [(k, v) for k, v in specs.data.items()]
+    for style in range(3):
+        r = ctx.rng("incremental", label, style)
+        nv = NamedVariables()
+        cuts = sorted(set(int(c) for c in r.integers(1, max(2, len(explicit)), size=3)))
+        for j, (k, v) in enumerate(explicit):
+            if k in nv.data:  # already added as a dedicated / regularity variable of an earlier definition
+                continue
+            nv[k] = v
+            if j in cuts or style == 2:
+                # the user looks at the collection in between
+                for a in nv.AUTOMATIC_VARS:
+                    nv[a].get_ancestors_names()
+                if style >= 1:
+                    list(nv.items())
+                    try:
+                        VariablesDAG.from_dict(nv)
+                    except Exception:
+                        pass  # an incomplete collection may legitimately be refused
+        ctx.evaluated()
+        ctx.count("incremental_builds")
+        case = {"model": label, "style": style, "cuts": cuts}
+        ind = sorted(k for k, v in nv.data.items() if isinstance(v, IndividualLatentVariable))
+        want = {f"nll_regul_{k}_ind" for k in ind}
+        try:
+            dag = VariablesDAG.from_dict(nv)
+        except ContractBroken as e:
+            ctx.violation("dag/closure-or-order-wrong", f"incrementally filled collection {label}: {e}", case)
+            continue
+        except Exception as e:
+            ctx.violation("dag/valid-definitions-refused", f"incrementally filled collection of {label} refused: {e!r}", case)
+            continue
+        got = set(dag.direct_ancestors["nll_regul_ind_sum_ind"])
+        if got != want:
+            ctx.violation("dag/automatic-node-wrong-ancestors", f"nll_regul_ind_sum_ind depends on {sorted(got)} but the collection has individual latent variables {ind}", case)
+        elif {k: set(v) for k, v in dag.direct_ancestors.items()} != {k: set(v) for k, v in dag_all.direct_ancestors.items()}:
+            ctx.violation("dag/depends-on-construction-history", f"{label}: direct ancestors differ between step-by-step and all-at-once collections", case)
+        elif dag.sorted_variables_names != dag_all.sorted_variables_names:
+            ctx.violation("dag/order-not-deterministic", f"{label}: order differs between step-by-step and all-at-once collections", case)
+        else:
+            ctx.count("incremental_equal")
         ctx.sample({"model": label, "n_nodes": len(dag), "first": list(dag.sorted_variables_names[:6])}, limit=1)
